@@ -3,6 +3,7 @@ package full
 import (
 	"bytes"
 	"fmt"
+	"os"
 	"sort"
 	"sync"
 	"sync/atomic"
@@ -123,6 +124,9 @@ func genC04(t *rapid.T) *C04Case {
 		Buf:  rapid.SampledFrom([]int{0, 1, 10}).Draw(t, "buf"),
 	}
 	c.Hangup = rapid.IntRange(0, 3).Draw(t, "hangup") == 0
+	if os.Getenv("VERIF_PROPERTY") == "C18" {
+		c.Hangup = false // as part of C18 only the boundary recognition matters
+	}
 	if rapid.IntRange(0, 3).Draw(t, "slow") == 0 {
 		c.SlowNs = rapid.SampledFrom([]int64{1, 1e6, 50e6}).Draw(t, "slowNs")
 	}
